@@ -42,7 +42,7 @@ ASSUMPTIONS = ["run-functions poll job.status and return soon after seeing CANCE
                "backends covered: serial, thread, process (fresh interpreter, log shared through a multiprocessing manager); loky in the thorough tier"]
 RULE = ("timeouts {1,2}s x workers {1,2,4} x backend {serial, thread, process, loky(thorough)} x search class {RandomSearch, CBO(DUMMY surrogate)} x mode {search(timeout), "
         "search(max_evals, timeout) plain/strict, evaluator.timeout + gather, evaluator.timeout + search(max_evals), two timed search() calls in a row on one search object, "
-        "evaluator.timeout + gather(BATCH) + close() while jobs are in CANCELLING} x per-job behaviours (returned value 1000+id or the falsy 0; short jobs finishing before the deadline, "
+        "evaluator.timeout + gather(BATCH) + close() while jobs are in CANCELLING, a budget re-armed while one is set (evaluator.timeout = t1; batch; evaluator.timeout = t2; batch / evaluator.timeout armed before a search(timeout=)), a second evaluator on the same storage and search id gathering the jobs of a timed search during or after it} x per-job behaviours (returned value 1000+id or the falsy 0; short jobs finishing before the deadline, "
         "jobs that never poll, jobs finishing within +-60 ms of the deadline, long jobs polling at different intervals until CANCELLING and returning at once or after more work); "
         "non-trivial = DONE and CANCELLED rows in one run")
 CLAUSE = {1: "illegal_status_sequence_or_stale_poll", 2: "no_terminal_status", 3: "row_count", 4: "row_status", 5: "value_not_kept",
@@ -197,6 +197,28 @@ def make_search(case, problem, evaluator, d):
     return RandomSearch(problem, evaluator, random_state=1, log_dir=d)
 
 
+class PeerThread(threading.Thread):
+    """the second evaluator polls the shared storage for finished jobs of the first one while that one is searching"""
+
+    def __init__(self, peer):
+        super().__init__(daemon=True)
+        self.peer, self.got, self.stop = peer, [], False
+
+    def run(self):
+        import contextlib
+        import io
+
+        while not self.stop:
+            with contextlib.redirect_stdout(io.StringIO()):
+                self.got += self.peer.gather_other_jobs_done()
+            time.sleep(0.05)
+
+    def finish(self):
+        self.stop = True
+        self.join(10)
+        return list(self.got)
+
+
 def drive(case, evaluator, emit, snapshot, hooks):
     """Run the scenario of `case` on an instrumented evaluator. emit(j, kind, arg) appends to the shared log;
     snapshot() returns a copy of it. Returns (table, late, trace)."""
@@ -270,9 +292,25 @@ def drive(case, evaluator, emit, snapshot, hooks):
             out.append([job_no(job), int(job.status.value), int(o) if isinstance(o, (int, float)) else -1])
         return out
 
+    def peer_stage(peer, peer_thread, how):
+        import contextlib
+        import io
+
+        got = []
+        if peer_thread is not None:
+            got = peer_thread.finish()
+        with contextlib.redirect_stdout(io.StringIO()):  # gather_other_jobs_done prints the records it loads
+            if how == "gather_all":
+                r = peer.gather("ALL")
+                got += list(r[1]) if isinstance(r, tuple) else []
+            else:
+                got += peer.gather_other_jobs_done()
+        return rows_of_jobs(got)
+
     problem = HpProblem()
     problem.add_hyperparameter((0.0, 10.0), "x")
     table = []
+    extra = {}
     settle = 0.3
     with tempfile.TemporaryDirectory(prefix="vp_c14_") as d:
         if mode == "evaluator":
@@ -291,8 +329,36 @@ def drive(case, evaluator, emit, snapshot, hooks):
             evaluator.close()
             table = rows_of_jobs(evaluator.jobs_done)
             settle = case.get("settle", 1.3)
+        elif mode == "rearm":
+            # a budget assigned while an older one is still set: batch 1 under the first budget (gather ALL: nothing is left in
+            # flight), then `evaluator.timeout = T` for batch 2 - the setter restarts the clock; sentinels belong to the LATEST budget
+            evaluator.timeout = case["first_timeout"]
+            evaluator.submit([{"x": float(i)} for i in range(case["njobs1"])])
+            jobs = evaluator.gather("ALL")
+            emit(0, K_AGAIN, 2)
+            arm(T)
+            evaluator.timeout = T
+            evaluator.submit([{"x": float(i)} for i in range(case["njobs"])])
+            jobs = jobs + evaluator.gather("ALL")
+            evaluator.close()
+            table = rows_of_jobs(jobs)
         else:
             search = make_search(case, problem, evaluator, d)
+            peer = peer_thread = None
+            if mode == "peer":
+                # a second evaluator attached to the same storage and search id: it gathers the jobs of the first one (during its
+                # timed search, or after it); every status write of both goes through the same logging storage
+                peer = hooks["make_peer"]()
+                peer._job_class = evaluator._job_class
+                hooks["peers"].append(peer)
+                if case["peer"] == "during":
+                    peer_thread = PeerThread(peer)
+                    peer_thread.start()
+            if mode == "evbudget_search":
+                # search(timeout=T) on an evaluator on which the caller armed his own (longer) budget some time before
+                evaluator.timeout = case["first_timeout"]
+                time.sleep(case["pause"])
+                emit(0, K_AGAIN, 1)
             if mode == "two_calls":
                 # the first call runs without sentinels; the pair (and the early one) belongs to the second call
                 search.search(timeout=case["first_timeout"])
@@ -302,7 +368,7 @@ def drive(case, evaluator, emit, snapshot, hooks):
                 df = search.search(timeout=T)
             else:
                 arm(T)
-                if mode == "search":
+                if mode in ("search", "peer", "evbudget_search"):
                     df = search.search(timeout=T)
                 elif mode == "evtimeout_search":
                     # the time budget is set on the evaluator, the search call has no `timeout` of its own
@@ -313,15 +379,20 @@ def drive(case, evaluator, emit, snapshot, hooks):
                 else:  # strict budget that may be hit in the middle of a batch
                     df = search.search(max_evals=case["max_evals"], timeout=T, max_evals_strict=True)
             table = rows_of_df(df)
+            if peer is not None:
+                returned_early()
+                emit(0, K_RETURN, 0)
+                extra["peer_table"] = peer_stage(peer, peer_thread, case["peer"])
         returned_early()
-        emit(0, K_RETURN, 0)
+        if not extra:
+            emit(0, K_RETURN, 0)
         n_at_return = len(snapshot())
         time.sleep(settle)
         for t in timers:
             t.cancel()
         tr = snapshot()
         late = sum(1 for e in tr[n_at_return:] if e[1] in (K_START, K_POLL, K_RET))
-    return table, late, tr
+    return table, late, tr, extra
 
 
 def run_case(case):
@@ -365,14 +436,16 @@ def run_case(case):
     backend = case["backend"]
     evaluator = Evaluator.create(run_async if backend == "serial" else run_sync, method=backend,
                                  method_kwargs={"num_workers": case["workers"], "storage": storage})
-    hooks = {}
+    hooks = {"peers": [], "make_peer": lambda: Evaluator.create(run_async if backend == "serial" else run_sync, method=backend, method_kwargs={
+        "num_workers": 1, "storage": storage, "search_id": evaluator._search_id})}
     instrument(evaluator, emit, hooks)
-    table, late, tr = drive(case, evaluator, emit, snapshot, hooks)
+    table, late, tr, extra = drive(case, evaluator, emit, snapshot, hooks)
     njobs = len(storage.load_all_job_ids(evaluator._search_id))
-    ex = getattr(evaluator, "executor", None)
-    if ex is not None:
-        ex.shutdown(wait=False, cancel_futures=True)
-    return njobs, tr, table, late
+    for ev in [evaluator] + hooks["peers"]:
+        ex = getattr(ev, "executor", None)
+        if ex is not None:
+            ex.shutdown(wait=False, cancel_futures=True)
+    return njobs, tr, table, late, extra
 
 
 def run_case_process(case):
@@ -391,16 +464,16 @@ def run_case_process(case):
     if "@@RESULT@@" not in p.stdout:
         raise RuntimeError("process-backend child failed: " + p.stderr[-1500:])
     o = json.loads(p.stdout.split("@@RESULT@@")[1].strip())
-    return o["njobs"], o["trace"], o["table"], o["late"]
+    return o["njobs"], o["trace"], o["table"], o["late"], o.get("extra", {})
 
 
 def budget_code(case):
-    return 2 if case.get("mode", "search") in ("evaluator", "evtimeout_search", "early_close") else 1
+    return 2 if case.get("mode", "search") in ("evaluator", "evtimeout_search", "early_close", "rearm", "evbudget_search") else 1
 
 
 def check(case):
     mode = case.get("mode", "search")
-    njobs, tr, table, late = run_case_process(case) if case["backend"] in ("process", "loky") else run_case(case)
+    njobs, tr, table, late, extra = run_case_process(case) if case["backend"] in ("process", "loky") else run_case(case)
     statuses = sorted(set(r[1] for r in table))
     sig = {"backend": case["backend"], "mode": mode}
     kinds = sorted(set(p[0] for p in case["plan"]))
@@ -432,6 +505,21 @@ def check(case):
     if not agree or mjobs != njobs:
         return dict(res, ok=False, kind="oracle", clause="table_differs_from_model", sig=dict(sig, clause="table_differs_from_model"),
                     detail=dict(table=table[:60], model_jobs=mjobs, njobs=njobs, tail=[describe(x) for x in tr[-40:]]))
+    # ---- the peer evaluator reports every job of the first one, with the same terminal status and value ----
+    if "peer_table" in extra:
+        pt = extra["peer_table"]
+        events = [e[:3] for e in tr]
+        agree = model().call(F_ACCEPT, [case["workers"], budget_code(case), events, pt, -1])[5]
+        if not agree:
+            # the same comparison once the jobs with a falsy (0) value that the peer did not report at all are put back
+            have = set(r[0] for r in pt)
+            falsy = [r for r in table if r[0] not in have and r[2] == 0]
+            name = "peer_reports_differ"
+            if falsy and model().call(F_ACCEPT, [case["workers"], budget_code(case), events, pt + falsy, -1])[5]:
+                name = "peer_drops_job_with_falsy_objective"
+            return dict(res, ok=False, kind="oracle", clause=name, sig=dict(mode=mode, clause=name),
+                        detail=dict(table=table[:40], peer_table=pt[:40], how=case.get("peer")))
+        res["desc"].append("peer=" + case.get("peer", ""))
     return res
 
 
@@ -454,7 +542,8 @@ def describe3(e):
     return names.get(k, str(k))
 
 
-MODES = ["search", "evaluator", "search_strict", "evtimeout_search", "search_max", "two_calls", "early_close"]
+MODES = ["search", "evaluator", "search_strict", "evtimeout_search", "search_max", "two_calls", "early_close", "rearm", "evbudget_search", "peer"]
+PEER_HOW = ["other", "gather_all", "during"]
 
 
 def behaviours(rng, T):
@@ -487,7 +576,7 @@ def gen(count, pairs):
             mode, backend = pairs[i % len(pairs)]
             c = dict(timeout=T, workers=W, backend=backend, plan=plan, mode=mode, search=rng.choice(["random", "cbo"]))
             longs = [p for p in plan if p[0] == "long"]
-            if mode in ("search", "two_calls") and not any(p[4] == "zero" for p in longs):
+            if mode in ("search", "two_calls", "rearm") and not any(p[4] == "zero" for p in longs):
                 longs[0][4] = "zero"  # a cancelled job that returns a falsy value
             if mode == "evaluator":
                 c["timeout"] = 2  # a job queued at the deadline with a stale budget would run 2 s more: visible beyond the slack
@@ -511,6 +600,26 @@ def gen(count, pairs):
                 # the second call must get a fresh budget (early sentinel 0.5 s before its deadline)
                 c["first_timeout"] = 1
                 c["plan"] = [p for p in plan if not (p[0] != "long" and p[1] > 0.5)]
+            elif mode == "rearm":
+                # a first budget of 1 s (its long jobs are cancelled at its expiry), then a fresh budget T for a second batch whose
+                # short jobs finish well inside it: they must not be told to cancel before the early sentinel of the LATEST budget
+                c["first_timeout"] = 1
+                c["njobs1"] = rng.randint(1, W + 1)
+                c["njobs"] = rng.randint(2, W + 2)
+                c["search"] = "random"
+                # job 0 is long: the first batch lasts until the first budget expires
+                c["plan"] = [longs[0]] + [p for p in plan if p is not longs[0] and not (p[0] != "long" and p[1] > 0.5)]
+            elif mode == "evbudget_search":
+                # the caller's own budget (2 s) was armed `pause` before a search(timeout=1): the search gets its own clock
+                c["first_timeout"] = 2
+                c["pause"] = rng.choice([0.6, 0.8])
+                c["timeout"] = 1
+                c["plan"] = [p for p in plan if not (p[0] != "long" and p[1] > 0.5)]
+            elif mode == "peer":
+                c["peer"] = PEER_HOW[i % 3]
+                c["plan"] = [p for p in plan if not (p[0] != "long" and p[1] > 0.5)]
+                if not any(p[0] == "long" and p[4] == "id" for p in c["plan"]):
+                    c["plan"].append(["long", 0, 0.1, 0, "id"])  # a cancelled job with a truthy value
             elif mode == "early_close":
                 # job 0 returns as soon as it is told; the others keep working 0.8 s in CANCELLING: close() finds them there
                 c["timeout"] = 1
@@ -539,4 +648,4 @@ def streams(tier):
     # every (mode, backend) pair occurs: thread and serial twice per round, process once (loky: thorough only)
     backs = ("serial", "thread", "process", "thread", "serial") + (("loky",) if th else ())
     pairs = [(m, b) for b in backs for m in MODES]
-    return [Stream("timeout_searches", gen(252 if th else 35, pairs), check, shrink, timeout=180)]
+    return [Stream("timeout_searches", gen(300 if th else 50, pairs), check, shrink, timeout=180)]
